@@ -67,6 +67,8 @@ pub fn close_fds_pointing_to(path: &std::path::Path, keep: &[i32]) -> usize {
         Ok(d) => d.filter_map(|e| e.ok()).filter_map(|e| e.file_name().to_str().and_then(|s| s.parse::<i32>().ok())).collect(),
         Err(_) => return 0,
     };
+    // (the configured path may be a symbolic link: descriptors show the file it leads to)
+    let canonical = std::fs::canonicalize(path).ok();
     for fd in entries {
         if fd <= 2 || keep.contains(&fd) {
             continue;
@@ -75,7 +77,12 @@ pub fn close_fds_pointing_to(path: &std::path::Path, keep: &[i32]) -> usize {
             // The writer opens read-write; readers (possibly mid-open in another thread) and
             // observers open read-only and must be left alone.
             let flags = unsafe { libc::fcntl(fd, libc::F_GETFL) };
-            if target == path && flags >= 0 && (flags & libc::O_ACCMODE) == libc::O_RDWR {
+            let hit = target == path || canonical.as_deref() == Some(target.as_path()) || {
+                // a file that was unlinked or renamed over since shows as "<path> (deleted)"
+                let t = target.to_string_lossy();
+                t.strip_suffix(" (deleted)").map(|t| std::path::Path::new(t) == path || canonical.as_deref() == Some(std::path::Path::new(t))).unwrap_or(false)
+            };
+            if hit && flags >= 0 && (flags & libc::O_ACCMODE) == libc::O_RDWR {
                 unsafe { libc::close(fd) };
                 closed += 1;
             }
